@@ -120,4 +120,127 @@ theorem serialize_subchain (ls : List LayerSem) (hall : ∀ l ∈ ls, WritesOnly
       simp only [sizeOf, List.length_replicate] at hol
       omega
 
+
+/-! ### The exact-region obligation
+
+`WritesOnly` quantifies over every region that is large enough. A layer with a trailer (EthernetII / Dot1Q padding,
+RadioTap FCS, RTP padding) locates its trailer by skipping `inner_pdu()->size()` bytes, so it can only keep the inner
+bytes intact on the region `PDU::serialize` really hands it: exactly `header + inner chain + trailer` bytes.  The
+theorems below are the same as above under that weaker per-layer obligation (hence they are the stronger theorems). -/
+
+/-- the per-layer obligation of C02 on the exact region of a layer whose inner chain has `inner` bytes -/
+def WritesOnlyAt (l : LayerSem) (inner : Nat) : Prop :=
+  ∀ region : Bytes, region.length = l.hdr + inner + l.trl →
+    ∃ out, l.write region = .ok out ∧ out.length = region.length ∧ innerOf l out = innerOf l region
+
+theorem writesOnlyAt_of_writesOnly {l : LayerSem} (h : WritesOnly l) (n : Nat) : WritesOnlyAt l n :=
+  fun region hr => h region (by omega)
+
+/-- every layer meets its obligation for the size of the chain below it -/
+def ChainOK : List LayerSem → Prop
+  | [] => True
+  | l :: ls => WritesOnlyAt l (sizeOf ls) ∧ ChainOK ls
+
+theorem chainOK_of_writesOnly (ls : List LayerSem) (h : ∀ l ∈ ls, WritesOnly l) : ChainOK ls := by
+  induction ls with
+  | nil => trivial
+  | cons l ls ih =>
+    exact ⟨writesOnlyAt_of_writesOnly (h l List.mem_cons_self) _, ih (fun x hx => h x (List.mem_cons_of_mem _ hx))⟩
+
+theorem chainOK_drop (ls : List LayerSem) (h : ChainOK ls) (n : Nat) : ChainOK (ls.drop n) := by
+  induction n generalizing ls with
+  | zero => simpa using h
+  | succ n ih =>
+    cases ls with
+    | nil => simpa using h
+    | cons l ls => simpa using ih ls h.2
+
+theorem serializeInto_ok_at (ls : List LayerSem) (hall : ChainOK ls) (region : Bytes)
+    (hlen : region.length = sizeOf ls) :
+    ∃ out, serializeInto ls region = .ok out ∧ out.length = region.length := by
+  induction ls generalizing region with
+  | nil => exact ⟨region, rfl, rfl⟩
+  | cons l ls ih =>
+    simp only [sizeOf] at hlen
+    have hin : ((region.drop l.hdr).take (region.length - (l.hdr + l.trl))).length = sizeOf ls := by
+      simp only [List.length_take, List.length_drop]; omega
+    rcases ih hall.2 _ hin with ⟨io, hio, hiol⟩
+    have hsl : (splice region l.hdr io).length = region.length := splice_length _ _ _ (by omega)
+    rcases hall.1 (splice region l.hdr io) (by omega) with ⟨out, ho, hol, _⟩
+    refine ⟨out, ?_, by omega⟩
+    simp only [serializeInto, hio, bind, Out.bind] at *
+    exact ho
+
+/-- **serialize is total and size-exact** under the exact-region obligation (chains of any depth) -/
+theorem serialize_ok_at (ls : List LayerSem) (hall : ChainOK ls) :
+    ∃ out, serialize ls = .ok out ∧ out.length = sizeOf ls := by
+  rcases serializeInto_ok_at ls hall (List.replicate (sizeOf ls) 0) (by simp) with ⟨out, h, hl⟩
+  exact ⟨out, h, by simpa using hl⟩
+
+theorem serializeInto_frame_at (l : LayerSem) (ls : List LayerSem) (hall : ChainOK (l :: ls))
+    (region : Bytes) (hlen : region.length = sizeOf (l :: ls)) :
+    ∃ out io, serializeInto (l :: ls) region = .ok out ∧
+      serializeInto ls (innerOf l region) = .ok io ∧ innerOf l out = io ∧ out.length = region.length := by
+  simp only [sizeOf] at hlen
+  have hin : (innerOf l region).length = sizeOf ls := by
+    simp only [innerOf, List.length_take, List.length_drop]; omega
+  rcases serializeInto_ok_at ls hall.2 _ hin with ⟨io, hio, hiol⟩
+  have hsl : (splice region l.hdr io).length = region.length := splice_length _ _ _ (by omega)
+  rcases hall.1 (splice region l.hdr io) (by omega) with ⟨out, ho, hol, hfr⟩
+  refine ⟨out, io, ?_, hio, ?_, by omega⟩
+  · have hio' : serializeInto ls ((region.drop l.hdr).take (region.length - (l.hdr + l.trl))) = .ok io := hio
+    simp only [serializeInto, hio', bind, Out.bind]
+    exact ho
+  · rw [hfr]
+    exact innerOf_splice l region io (by omega) (by omega)
+
+/-- **layers never overwrite each other** under the exact-region obligation (chains of any depth) -/
+theorem serialize_subchain_at (ls : List LayerSem) (hall : ChainOK ls) (n : Nat) (hn : n ≤ ls.length) :
+    ∃ out sub, serialize ls = .ok out ∧ serialize (ls.drop n) = .ok sub ∧
+      (out.drop (offsetOf ls n)).take (sizeOf (ls.drop n)) = sub := by
+  induction n generalizing ls with
+  | zero =>
+    rcases serialize_ok_at ls hall with ⟨out, h, hl⟩
+    refine ⟨out, out, h, by simpa using h, ?_⟩
+    cases ls <;> simp [offsetOf, ← hl]
+  | succ n ih =>
+    cases ls with
+    | nil => simp at hn
+    | cons l ls =>
+      have hall' : ChainOK ls := hall.2
+      rcases ih ls hall' (by simpa using hn) with ⟨io, sub, hio, hsub, hrel⟩
+      have hz : innerOf l (List.replicate (sizeOf (l :: ls)) 0) = List.replicate (sizeOf ls) 0 := by
+        simp only [innerOf, sizeOf, List.length_replicate, List.drop_replicate, List.take_replicate]
+        congr 1; omega
+      rcases serializeInto_frame_at l ls hall (List.replicate (sizeOf (l :: ls)) 0) (by simp) with
+        ⟨out, io', ho, hio', hfr, hol⟩
+      rw [hz] at hio'
+      have : io' = io := by
+        have := hio'.symm.trans hio
+        injection this
+      subst this
+      refine ⟨out, sub, ho, by simpa using hsub, ?_⟩
+      simp only [offsetOf, List.drop_succ_cons]
+      rw [← hrel, ← hfr]
+      simp only [innerOf]
+      rw [← List.drop_drop]
+      have hiolen : io'.length = sizeOf ls := by
+        rcases serialize_ok_at ls hall' with ⟨o2, h2, hl2⟩
+        have := h2.symm.trans hio
+        injection this with e; rw [← e]; exact hl2
+      have hle : offsetOf ls n + sizeOf (ls.drop n) ≤ sizeOf ls := by
+        clear hrel hsub ih hio hio' hfr hiolen hz ho hol hall hall'
+        induction ls generalizing n with
+        | nil => simp [offsetOf, sizeOf]
+        | cons a as iha =>
+          cases n with
+          | zero => simp [offsetOf]
+          | succ m =>
+            have := iha m (by simpa using hn)
+            simp only [offsetOf, List.drop_succ_cons, sizeOf]; omega
+      rw [List.drop_take, List.take_take]
+      congr 1
+      simp only [sizeOf, List.length_replicate] at hol
+      omega
+
 end Tins.Wire
